@@ -12,7 +12,7 @@ Require Import ScanProofs TextProofs TokenProofs CharStrProofs DatumProofs Round
 (* to_string(v) (= to_vec = the bytes a writer receives, C07) read back through
    Parser::from_str / from_slice / from_reader + expect_value + end *)
 Theorem C01_roundtrip_partial : forall ryu alpha fast std_parse k v,
-  rt_ok v -> (rdepth v <= 127)%nat ->
+  rt_ok alpha v -> (rdepth v <= 127)%nat ->
   from_trait default_ro alpha fast std_parse k (bytes_events (print0 ryu v)) = POk v.
 Proof.
   intros ryu alpha fast std_parse k v Hok Hd. rewrite print0_is_txt.
@@ -22,7 +22,7 @@ Print Assumptions C01_roundtrip_partial.
 
 (* the datum API reads the same value *)
 Theorem C01_roundtrip_datum_partial : forall ryu alpha fast std_parse k v,
-  rt_ok v -> (rdepth v <= 127)%nat ->
+  rt_ok alpha v -> (rdepth v <= 127)%nat ->
   exists d, datum_from_trait default_ro alpha fast std_parse k (bytes_events (print0 ryu v)) = POk d /\ dvalue d = v.
 Proof.
   intros ryu alpha fast std_parse k v Hok Hd.
@@ -36,7 +36,7 @@ Print Assumptions C01_roundtrip_datum_partial.
 (* inside a longer input: next_value reads exactly the printed text and leaves
    what follows (end of input, a space or a closing parenthesis) unread *)
 Theorem C01_reads_exactly_partial : forall ryu alpha fast std_parse v fuel r D rest,
-  rt_ok v -> N.of_nat (rdepth v) < D -> D <= 128 -> (length (print0 ryu v) + 16 <= fuel)%nat ->
+  rt_ok alpha v -> N.of_nat (rdepth v) < D -> D <= 128 -> (length (print0 ryu v) + 16 <= fuel)%nat ->
   ReaderProofs.at_bytes r (print0 ryu v ++ rest) -> delim_ok rest ->
   exists r', next_value default_ro alpha fast std_parse fuel (mkp r D) = (POk (Some v), mkp r' D) /\
              ReaderProofs.at_bytes r' rest /\ rk r' = rk r.
@@ -52,11 +52,11 @@ Definition c01_sample : value :=
    (Cons (Cons (Symbol (s2b "f")) (Cons (Symbol (s2b "...")) (Symbol (s2b "rest"))))
     (Cons (Vector [Number (PosInt 18446744073709551615); Number (NegInt (-9223372036854775808)); Char 955; Char 32;
                    String [34; 92; 7; 10; 206; 187]; Keyword (s2b "key"); Bytes [0; 255]; Bool true; Nil; Null])
-     (Cons (Symbol (s2b "+")) (Cons (Symbol (s2b "-x")) Null)))).
-Example C01_nonvacuous : rt_ok c01_sample /\ (rdepth c01_sample <= 127)%nat /\
+     (Cons (Symbol (s2b "+")) (Cons (Symbol (s2b "-x")) (Cons (Symbol [206; 187; 120]) Null))))).
+Example C01_nonvacuous : rt_ok (fun _ => true) c01_sample /\ (rdepth c01_sample <= 127)%nat /\
   from_trait default_ro (fun _ => true) true dec_to_f64 SrcIo (bytes_events (print0 (fun _ => []) c01_sample)) = POk c01_sample.
 Proof.
-  assert (H : rt_ok c01_sample /\ (rdepth c01_sample <= 127)%nat).
+  assert (H : rt_ok (fun _ => true) c01_sample /\ (rdepth c01_sample <= 127)%nat).
   { split; [|vm_compute; repeat constructor].
     unfold c01_sample. cbn [rt_ok]. unfold plain_symbol, symbol_ok, no_terminator, octets_ok, u64_MAX, NumberOps.i64_min.
     repeat match goal with
@@ -65,7 +65,8 @@ Proof.
            | |- True => exact I
            end; try reflexivity; try lia; cbn;
       try (left; first [left; reflexivity | right; left; cbn; tauto | right; right; reflexivity]);
-      try (right; split; [first [left; reflexivity|right; reflexivity]|]; try exact I; try reflexivity). }
+      try (right; left; split; [first [left; reflexivity|right; reflexivity]|]; try exact I; try reflexivity);
+      try (right; right; split; [reflexivity|split; [reflexivity|exists [187], [120]; repeat split; reflexivity]]). }
   destruct H as [H1 H2]. split; [exact H1|]. split; [exact H2|].
   exact (C01_roundtrip_partial (fun _ => []) (fun _ => true) true dec_to_f64 SrcIo c01_sample H1 H2).
 Qed.
